@@ -115,11 +115,11 @@ fn any_limit() -> u64 {
     v
 }
 
-/// Stream count a peer may advertise: 1..=2^60 (0: the opener parks, nothing is created — C12's
-/// subject; > 2^60 is the missing-bound finding of C18).
+/// Stream count a peer may advertise: 1..2^60 (0: the opener parks, nothing is created — C12's
+/// subject; >= 2^60 trips `assert!(val <= MAX_STREAMS_LIMIT)`: the missing-bound finding of C18).
 fn any_streams() -> u64 {
     let v: u64 = kani::any();
-    kani::assume(v >= 1 && v <= (1u64 << 60));
+    kani::assume(v >= 1 && v < (1u64 << 60));
     v
 }
 
@@ -177,6 +177,47 @@ impl Side for AsServer {
         assert!(remembered.is_none());
         core::mem::forget(remembered);
         qbase::param::Parameters::c11s_server(local, remote).into()
+    }
+}
+
+// ------------------------------------------------------------------------------------------------
+// Parameter LOOKUPS in the open / accept / revise harnesses. The parameter sets are really built
+// (typed `Parameters<Role>` inside the shared `ArcParameters`), but looking a value up in them
+// through Arc<Mutex<Result<Parameters>>> -> Arc<Parameters<Role>> -> map -> ParameterValue::clone ->
+// TryFrom is what made every harness that touches `ArcParameters` time out (1500 s; the same
+// harnesses without a lookup finish in ~2 min). The two lookup functions are therefore replaced by
+// stubs that answer FROM THE SAME VALUES, keyed by the ParameterId that is ASKED FOR — which id a
+// creation path asks for is exactly what the configuration clause is about. (`Parameters::get` /
+// `get_remote` themselves — defaults, role selection — are C18's subject; a native replay runs the
+// real lookups on the real sets, which hold the same values.)
+/// (bidi_local, bidi_remote, uni, max_streams_bidi, max_streams_uni) of the peer's real parameters
+static mut REMOTE_VALS: Option<(u64, u64, u64, u64, u64)> = None;
+/// the same for the typed set the code under test holds directly (remembered / revise_params argument)
+static mut TYPED_VALS: Option<(u64, u64, u64, u64, u64)> = None;
+
+fn val_of(t: (u64, u64, u64, u64, u64), id: ParameterId) -> u64 {
+    match id {
+        ParameterId::InitialMaxStreamDataBidiLocal => t.0,
+        ParameterId::InitialMaxStreamDataBidiRemote => t.1,
+        ParameterId::InitialMaxStreamDataUni => t.2,
+        ParameterId::InitialMaxStreamsBidi => t.3,
+        ParameterId::InitialMaxStreamsUni => t.4,
+        _ => panic!("a parameter that is no flow-control / stream-count parameter was requested"),
+    }
+}
+fn as_value<V: TryFrom<qbase::param::ParameterValue>>(x: u64) -> Option<V> {
+    qbase::param::ParameterValue::VarInt(VarInt::from_u64(x).unwrap()).try_into().ok()
+}
+fn stub_get_remote<V: TryFrom<qbase::param::ParameterValue>>(_p: &qbase::param::Parameters, id: ParameterId) -> Option<V> {
+    match unsafe { REMOTE_VALS } {
+        Some(t) => as_value(val_of(t, id)),
+        None => None, // the peer's parameters are not known / not authenticated yet
+    }
+}
+fn stub_typed_get<Role, V: TryFrom<qbase::param::ParameterValue>>(_p: &Parameters<Role>, id: ParameterId) -> Option<V> {
+    match unsafe { TYPED_VALS } {
+        Some(t) => as_value(val_of(t, id)),
+        None => panic!("no typed parameter set is looked at in this harness"),
     }
 }
 
@@ -258,8 +299,10 @@ fn open_step<S: Side, const DIR_BI: bool, const MODE: u8, const UNI_TRIGGER_AWAY
     let ds = streams_with(S::ROLE, l, if DIR_BI { n } else { 0 }, if DIR_BI { 0 } else { n });
     let local = typed::<S::L>(l, None);
     let arc = if MODE == 0 {
+        unsafe { REMOTE_VALS = Some((r.0, r.1, r.2, 0, 0)) };
         S::state(local, Some(typed::<S::R>(r, None)), None)
     } else {
+        unsafe { TYPED_VALS = Some((r.0, r.1, r.2, 0, 0)) };
         S::state(local, None, Some(typed::<S::R>(r, None)))
     };
     let w = waker(0);
@@ -385,6 +428,9 @@ fn accept_bi_queued<S: Side>() {
     // the peer's parameters may or may not be known yet
     let ready: bool = kani::any();
     let remote = if ready { Some(typed::<S::R>(r, None)) } else { None };
+    if ready {
+        unsafe { REMOTE_VALS = Some((r.0, r.1, r.2, 0, 0)) };
+    }
     let arc = S::state(typed::<S::L>(l, None), remote, None);
     let w = waker(0);
     let mut cx = Context::from_waker(&w);
@@ -434,6 +480,20 @@ fn accept_uni_queued<S: Side>() {
     core::mem::forget(recver);
 }
 
+// (the real `Parameters::get` runs here)
+macro_rules! c11s_new_harness {
+    ($name:ident, $call:expr) => {
+        #[kani::proof]
+        #[kani::unwind(6)]
+        #[kani::stub(core::fmt::write, stub_write)]
+        #[kani::stub(std::sync::Mutex::lock, stub_lock)]
+        #[kani::stub(qbase::net::tx::ArcSendWakers::wake_all_by, stub_wake_all_by)]
+        fn $name() {
+            $call;
+        }
+    };
+}
+
 macro_rules! c11s_streams_harness {
     ($name:ident, $call:expr) => {
         #[kani::proof]
@@ -455,6 +515,8 @@ macro_rules! c11s_streams_harness {
         #[kani::stub(crate::streams::io::ArcInput::guard, crate::streams::io::verif_c11s_io::c11s_stub_input_guard)]
         #[kani::stub(crate::streams::listener::ArcListener::guard, crate::streams::listener::verif_c11s_listener::c11s_stub_listener_guard)]
         #[kani::stub(qbase::param::ArcParameters::lock_guard, qbase::param::ArcParameters::c11s_stub_lock_guard)]
+        #[kani::stub(qbase::param::Parameters::get_remote, stub_get_remote)]
+        #[kani::stub(qbase::param::core::Parameters::get, stub_typed_get)]
         #[kani::stub(qbase::sid::ArcRemoteStreamIds::try_accept_sid, stub_remote_accept)]
         #[kani::stub(crate::streams::listener::ListenerGuard::push_bi_stream, stub_push_bi)]
         #[kani::stub(crate::streams::listener::ListenerGuard::push_uni_stream, stub_push_uni)]
@@ -464,8 +526,8 @@ macro_rules! c11s_streams_harness {
     };
 }
 
-c11s_streams_harness!(c11_s_new_fields_client, new_fields::<AsClient>());
-c11s_streams_harness!(c11_s_new_fields_server, new_fields::<AsServer>());
+c11s_new_harness!(c11_s_new_fields_client, new_fields::<AsClient>());
+c11s_new_harness!(c11_s_new_fields_server, new_fields::<AsServer>());
 c11s_streams_harness!(c11_s_open_bi_client, open_step::<AsClient, true, 0, false>());
 c11s_streams_harness!(c11_s_open_bi_server, open_step::<AsServer, true, 0, false>());
 c11s_streams_harness!(c11_s_open_bi_0rtt, open_step::<AsClient, true, 1, false>());
@@ -520,8 +582,9 @@ fn revise_args<S: Side>() {
     }
     let rejected: bool = kani::any();
     let rn: u64 = kani::any();
-    kani::assume(rn >= n && rn <= (1u64 << 60));
+    kani::assume(rn >= n && rn < (1u64 << 60));
     let remote = typed::<S::R>(r, Some((ParameterId::InitialMaxStreamsBidi, rn)));
+    unsafe { TYPED_VALS = Some((r.0, r.1, r.2, rn, 0)) };
 
     ds.revise_params(rejected, &remote);
 
@@ -547,6 +610,7 @@ macro_rules! c11s_revise_args_harness {
         #[kani::stub(qbase::net::tx::ArcSendWakers::wake_all_by, stub_wake_all_by)]
         #[kani::stub(crate::streams::io::ArcOutputGuard::revise_max_stream_data, stub_revise_record)]
         #[kani::stub(crate::streams::io::ArcOutput::guard, crate::streams::io::verif_c11s_io::c11s_stub_output_guard)]
+        #[kani::stub(qbase::param::core::Parameters::get, stub_typed_get)]
         fn $name() {
             $call;
         }
@@ -556,39 +620,36 @@ c11s_revise_args_harness!(c11_s_revise_args_client, revise_args::<AsClient>());
 c11s_revise_args_harness!(c11_s_revise_args_server, revise_args::<AsServer>());
 
 /// The table walk `ArcOutputGuard::revise_max_stream_data` on a REAL table (std BTreeMap inside a
-/// stack-resident Mutex, see c11s_io.rs) holding ONE stream in the state `create_sender` leaves it
-/// (Ready, window v): an endpoint of role `role` that has opened `opened_bidi` / `opened_uni`
-/// streams revises exactly the streams IT opened (initiator == role and index < opened count):
-/// bidi -> wb, uni -> wu (0-RTT rejected: exactly; accepted: never lowered). Every other stream in
-/// the table — in particular a PEER-opened bidirectional stream, whose window is the peer's
-/// initial_max_stream_data_bidi_local and is set when the application accepts it — keeps its window.
-/// TRIGGER_AWAY: no peer-opened bidi stream with index < opened_bidi (the trigger of the
-/// suspected defect: the walk does not look at the initiator of the stream).
-fn revise_walk<const TRIGGER_AWAY: bool>() {
-    let role = if kani::any() { Role::Client } else { Role::Server };
-    let sid_role = if kani::any() { Role::Client } else { Role::Server };
-    let dir = if kani::any() { Dir::Bi } else { Dir::Uni };
-    let idx: u64 = kani::any();
-    kani::assume(idx <= 2);
-    let sid = StreamId::new(sid_role, dir, idx);
-    let local = sid_role == role;
-    // (a peer-opened unidirectional stream has no sending half: it is never in this table)
-    kani::assume(local || dir == Dir::Bi);
+/// stack-resident Mutex, see c11s_io.rs) of a CLIENT, holding ONE stream (index 0 of its kind) in
+/// the state `create_sender` leaves it (Ready, window v). An endpoint that has opened `opened_bidi`
+/// / `opened_uni` streams revises exactly the streams IT opened (initiator == own role and index <
+/// opened count): bidi -> wb, uni -> wu (0-RTT rejected: exactly; accepted: never lowered). Every
+/// other stream in the table — in particular a PEER-opened bidirectional stream, whose window is the
+/// peer's initial_max_stream_data_bidi_local and is applied when the application accepts it —
+/// keeps its window.
+/// LOCAL / DIR_BI: who opened the stream in the table, and its direction.
+/// NONE_OPENED (peer-opened stream only): the client has not opened a bidirectional stream itself —
+/// the trigger of the suspected defect assumed away (the walk tests `sid.id() < opened_bidi`
+/// without looking at the initiator of the stream).
+fn revise_walk<const LOCAL: bool, const DIR_BI: bool, const NONE_OPENED: bool>() {
+    let sid = StreamId::new(if LOCAL { Role::Client } else { Role::Server }, if DIR_BI { Dir::Bi } else { Dir::Uni }, 0);
     let opened_bidi: u64 = kani::any();
     let opened_uni: u64 = kani::any();
-    kani::assume(opened_bidi <= 3 && opened_uni <= 3);
-    // a locally opened stream in the table has been opened
-    kani::assume(!local || idx < if dir == Dir::Bi { opened_bidi } else { opened_uni });
-    if TRIGGER_AWAY {
-        kani::assume(local || idx >= opened_bidi);
+    kani::assume(opened_bidi <= 2 && opened_uni <= 2);
+    if LOCAL {
+        // a locally opened stream in the table has been opened
+        kani::assume(if DIR_BI { opened_bidi >= 1 } else { opened_uni >= 1 });
+    }
+    if NONE_OPENED {
+        kani::assume(opened_bidi == 0);
     }
     let v = any_limit();
     let wb = any_limit();
     let wu = any_limit();
     let rejected: bool = kani::any();
-    if !rejected {
+    if !rejected && LOCAL {
         // RFC 9000 7.4.1 / is_0rtt_accepted: an accepted 0-RTT never lowers a remembered limit
-        kani::assume(!local || v <= if dir == Dir::Bi { wb } else { wu });
+        kani::assume(v <= if DIR_BI { wb } else { wu });
     }
     let sender = AS::<Ext<Sink>>::new(sid, v, Ext(Sink), tx_handle(), None);
     let mut table = Output::<Ext<Sink>>::c11s_new();
@@ -599,14 +660,15 @@ fn revise_walk<const TRIGGER_AWAY: bool>() {
     guard.revise_max_stream_data(rejected, opened_bidi, opened_uni, wb, wu);
 
     let after = sender.c11s_window();
-    if local {
-        assert!(after == Some(if dir == Dir::Bi { wb } else { wu }), "C11 revise: a locally opened stream gets the peer's limit for its kind (bidi -> bidi_remote value, uni -> uni value)");
+    if LOCAL {
+        assert!(after == Some(if DIR_BI { wb } else { wu }), "C11 revise: a locally opened stream gets the peer's limit for its kind (bidi -> bidi_remote value, uni -> uni value)");
+        kani::cover!(rejected && after.unwrap() < v, "0-RTT rejected, smaller window");
+        kani::cover!(!rejected && after.unwrap() > v, "window raised");
     } else {
         assert!(after == Some(v), "C11 revise: a PEER-opened bidirectional stream keeps its window (its limit is the peer's initial_max_stream_data_bidi_local, applied on accept)");
+        kani::cover!(NONE_OPENED || opened_bidi > 0, "peer-opened bidi stream while own bidi streams exist");
+        kani::cover!(wb > v, "the window for own bidi streams is larger");
     }
-    kani::cover!(local && dir == Dir::Bi && rejected && wb < v, "own bidi stream, 0-RTT rejected, smaller window");
-    kani::cover!(local && dir == Dir::Uni && !rejected && wu > v, "own uni stream, window raised");
-    kani::cover!(!local && opened_bidi > 0, "peer-opened bidi stream while own bidi streams exist");
     core::mem::forget(guard);
     core::mem::forget(mutex);
     core::mem::forget(sender);
@@ -625,6 +687,8 @@ macro_rules! c11s_revise_walk_harness {
     };
 }
 // PENDING (suspected defect): the walk gives the BidiRemote window to peer-opened bidi streams as well
-c11s_revise_walk_harness!(c11_s_revise_walk, revise_walk::<false>());
-// passing twin: no peer-opened bidi stream below the count of locally opened ones
-c11s_revise_walk_harness!(c11_s_revise_walk_own_streams, revise_walk::<true>());
+c11s_revise_walk_harness!(c11_s_revise_walk_peer_bidi, revise_walk::<false, true, false>());
+// passing twin: trigger assumed away
+c11s_revise_walk_harness!(c11_s_revise_walk_peer_bidi_none_opened, revise_walk::<false, true, true>());
+c11s_revise_walk_harness!(c11_s_revise_walk_own_bidi, revise_walk::<true, true, false>());
+c11s_revise_walk_harness!(c11_s_revise_walk_own_uni, revise_walk::<true, false, false>());
